@@ -1775,6 +1775,18 @@ func checkTotalLines(c *Ctx, p *core.Prog) {
 				for _, e := range x.Edges {
 					walk(e)
 				}
+			case *ssa.Call:
+				// a helper of the package that returns the line: what it returns
+				g := x.Call.StaticCallee()
+				if g == nil || core.FuncPkgPath(g) != v2pkg || len(g.Blocks) == 0 || g.Signature.Results().Len() != 1 {
+					bad = eng.Describe(x)
+					return
+				}
+				for _, gb := range g.Blocks {
+					if ret, isRet := gb.Instrs[len(gb.Instrs)-1].(*ssa.Return); isRet && len(ret.Results) == 1 {
+						walk(ret.Results[0])
+					}
+				}
 			case *ssa.UnOp:
 				fa, isFA := x.X.(*ssa.FieldAddr)
 				if !isFA || core.FieldName(fa) != "Line" {
